@@ -101,7 +101,7 @@ Init ==
   /\ ls = [pc |-> "off", i |-> 0, timer |-> 0, msg |-> NONE]
   /\ lsown = FALSE /\ intr = "off" /\ dl = FALSE /\ lw = "off" /\ linkEv = FALSE
   /\ ipc = <<>> /\ inbox = <<>> /\ fwd \in BOOLEAN /\ held = {}
-  /\ rq = ReqInit(UnicastOnly, CfgLife, FALSE)
+  /\ rq = ReqInit(UnicastOnly, CfgLife, FALSE, MinIv > MaxT)
   /\ nIn = 0 /\ nFlip = 0 /\ nHold = 0
 
 \* errgroup: first error wins and cancels the group context
